@@ -123,16 +123,39 @@ def c04_dest(rng: Rng):
         if not (st.ok and st.step == "WAITING_FOR_FINISHED_ACK"):
             return s, f, c, {"skipped": f"step {st.step if st.ok else '?'}"}
         expiries, phase = 0, 1
+        # half-silent link: the receiver's PDUs never arrive, but the sender's do — it keeps re-sending its
+        # EOF, which the receiver acknowledges again; that is not progress for the Finished PDU: no
+        # Finished re-send outside the timer, the counter and the timer are untouched
+        half_silent = rng.chance(0.5)
+        eof_again = g.eof(h, 0, g.ref_checksum(c.cks, c.data), n)
+        bad = False
         for _ in range(2 * lim + 3):
-            if rng.chance(0.4):
-                s.tick(ms - 1)
+            rem = ms
+            if half_silent and rng.chance(0.6):
+                t1 = rng.randrange(0, ms)
+                s.tick(t1)
+                rem -= t1
+                before = Status(s.out[-1]) if s.out else None
+                ste = s.sm("D", eof_again)
+                gote = s.drain("D")
+                kinds_e = [pdu_kind(p) for p in gote]
+                dt_e = [pdu_fields(p).get("of") for p in gote]
+                if not ste.ok or kinds_e != ["ack"] or dt_e != ["4"] or ste.flt or ste.step != "WAITING_FOR_FINISHED_ACK" \
+                        or ste.ack != st.ack:
+                    f.add("C04:dest:re-received-eof-is-not-progress",
+                          {"pdus": gote, "flt": ste.flt, "step": ste.step if ste.ok else "?",
+                           "counter": [st.ack, ste.ack if ste.ok else None]}, len(s.ops) - 1)
+                    bad = True
+                    break
+            if rem > 1 and rng.chance(0.4):
+                s.tick(rem - 1)
                 st0 = s.sm("D")
                 got0 = s.drain("D")
                 if got0 or st0.flt:
                     f.add("C04:dest:activity-before-expiry", {"pdus": got0, "flt": st0.flt}, len(s.ops) - 1)
                 s.tick(1)
             else:
-                s.tick(ms)
+                s.tick(rem)
             st = s.sm("D")
             got = s.drain("D")
             expiries += 1
@@ -160,8 +183,9 @@ def c04_dest(rng: Rng):
                           {"limit": lim, "pdus": kinds, "flt": st.flt, "state": st.state}, len(s.ops) - 1)
                 break
         else:
-            f.add("C04:dest:not-idle-after-2N-expiries", {"limit": lim})
-        return s, f, c, {"which": which, "expiries": expiries}
+            if not bad:
+                f.add("C04:dest:not-idle-after-2N-expiries", {"limit": lim})
+        return s, f, c, {"which": which, "expiries": expiries, "half_silent": half_silent}
     # NAK procedure: the first sequence was issued at once (counter 0); expiry e re-issues while
     # counter + 1 != limit, the limit fault is declared at the expiry with counter + 1 == limit
     if not (st.ok and st.deferred):
